@@ -6,7 +6,7 @@ import os
 
 ALL = ["C04", "C05", "C06", "C16", "C18", "C19", "C20"]
 rows = []
-for d in sorted(glob.glob("/verif/seeded/*")):
+for d in sorted(x for x in glob.glob("/verif/seeded/*") if os.path.isdir(x)):
     try:
         meta = json.load(open(os.path.join(d, "meta.json")))
         res = json.load(open(os.path.join(d, "result.json")))
